@@ -824,7 +824,13 @@ def receive_udp(
     """
 
     wire = b""
+    skipped = False
     while True:
+        if skipped and expiration is not None and time.time() >= expiration:
+            # Datagrams we skip are read without waiting while they keep
+            # arriving, so check the deadline here too.
+            raise dns.exception.Timeout
+        skipped = True
         wire, from_address = _udp_recv(sock, 65535, expiration)
         if not _matches_destination(
             sock.family, from_address, destination, ignore_unexpected
